@@ -172,7 +172,7 @@ func c07Body(c *run.Ctx) {
 		}
 	}
 	o := HistOpts{
-		Gen:          sim.GenOpts{ShortStacks: 25, SitOutPct: 15, ViaCreatePct: 30, AnteePct: 25, MaxPlayers: 7, Modes: []int{3, 2, 0}},
+		Gen:          sim.GenOpts{ShortStacks: 25, SitOutPct: 15, ViaCreatePct: 30, AnteePct: 25, MaxPlayers: 7, Modes: []int{3, 2, 2}},
 		MinHands:     2,
 		MaxHands:     run.Scale(7, 15),
 		BetweenOps:   2,
